@@ -98,3 +98,120 @@ def c19(run):
     run.assumptions += ["one header per tick; recency/expiry boundaries are hit exactly because virtual time is frozen during a call",
                         "the getter is scripted below the Exchange: verification against the trusted head is not re-done by it"]
     judge(run, cases, "TestSyncerHead", "SyncerHeadTrace", ["C19_"], shards=8, pkg="synch")
+
+
+def syncer_cfg(n, maxreq, faults, events, export, live=False):
+    t = ["CONSTANTS N = %d" % n, " MaxReq = %d" % maxreq, " MaxFaults = %d" % faults, " MaxEvents = %d" % events,
+         "SPECIFICATION %s" % ("LiveSpec" if live else "Spec"), "VIEW view", "CHECK_DEADLOCK FALSE"]
+    if export:
+        t.append("CONSTRAINT ExportEdge")
+    else:
+        t.append("INVARIANTS TargetReached PendingAboveStore StoreWithinLearned")
+        t.append("PROPERTIES NothingLost" + (" EventuallySynced" if live else ""))
+    return "\n".join(t) + "\n"
+
+
+def syncer_family(run, prefixes):
+    quick = run.tier == "quick"
+    rnd = random.Random(vlib.seed())
+
+    def tlc_cfg(name, text, export, workers=8, sim=None, depth=None):
+        fn = "_gen_%s_%s.cfg" % (run.pid, name)
+        open(os.path.join(vlib.SPEC, fn), "w").write(text)
+        try:
+            return vlib.tlc(run.pid, name, "Syncer", fn, workers=workers, export_key="SYNC" if export else None, timeout=3000,
+                            simulate=sim, depth=depth)
+        finally:
+            os.remove(os.path.join(vlib.SPEC, fn))
+    n, ev = (6, 7) if quick else (7, 9)
+    res = tlc_cfg("mc", syncer_cfg(n, 64, 2, ev, False), False)
+    vlib.require_tlc_ok(res, "Syncer.tla safety")
+    run.add_tlc("Syncer.tla N=%d MaxEvents=%d (TargetReached, NothingLost, PendingAboveStore)" % (n, ev), res)
+    res = tlc_cfg("live", syncer_cfg(5, 64, 1, 6, False, live=True), False)
+    vlib.require_tlc_ok(res, "Syncer.tla liveness")
+    run.add_tlc("Syncer.tla liveness EventuallySynced under WF(honest serve)", res)
+    res = tlc_cfg("chunk", syncer_cfg(9, 3, 2, ev, False), False)
+    vlib.require_tlc_ok(res, "Syncer.tla chunked")
+    run.add_tlc("Syncer.tla with MaxReq=3 (chunked requests)", res)
+    res = tlc_cfg("export", syncer_cfg(n, 64, 2, ev, True), True, workers=1)
+    vlib.require_tlc_ok(res, "Syncer.tla export")
+    run.add_tlc("Syncer.tla export (one behaviour per edge)", res)
+    cases = res.exported
+    total = len(cases)
+    cap_ = 2500 if quick else 40000
+    if total > cap_:
+        cases = rnd.sample(cases, cap_)
+    # long chains so that the real MaxRangeRequestSize=64 splits requests: simulated behaviours of a big model
+    sim = tlc_cfg("sim", syncer_cfg(150, 64, 2, 10, True), True, workers=1, sim="num=%d" % (60 if quick else 1500), depth=12)
+    if sim.error:
+        raise vlib.Inconclusive("Syncer.tla simulation: " + sim.error)
+    run.add_tlc("Syncer.tla simulation N=150 MaxReq=64", sim)
+    longs = [c for c in sim.exported if len(c["hist"]) >= 3]
+    longs = longs[-(200 if quick else 4000):]
+    cases = cases + longs
+    # hand-built scenarios around a forged head far ahead (refused through bifurcation, which promotes verified intermediates):
+    # judged by the property layer only
+    def ev(e, kind, h):
+        return {"ev": {"e": e, "kind": kind, "h": h, "res": ""}, "sh": 0, "pend": [], "wait": False, "from": 0, "reqTo": 0, "serr": False, "sto": 0}
+    frees = []
+    for _ in range(60 if quick else 1500):
+        n_ = rnd.randint(6, 14)
+        hist, top = [], 1
+        for _ in range(rnd.randint(2, 6)):
+            r = rnd.random()
+            if r < 0.35 and top + 2 <= n_:
+                fh = rnd.randint(top + 2, n_)
+                hist.append(ev("gossip", "forgedFar", fh))
+                top = fh - 1          # refusing it through bifurcation teaches the verified headers below it
+            elif r < 0.6 and top + 1 <= n_:
+                top = rnd.randint(top + 1, n_)
+                hist.append(ev("gossip", "valid", top))
+            elif r < 0.7:
+                hist.append(ev("gossip", rnd.choice(["wrongchain", "future"]), rnd.randint(top + 1, n_ + 1)))
+            else:
+                hist.append(ev("serve", rnd.choice(["ok", "ok", "ok", "error"]), rnd.randint(1, 3)))
+        for _ in range(8):
+            hist.append(ev("serve", "ok", 64))
+        frees.append({"k": "SYNC", "n": n_, "hist": hist, "free": True, "from_tlc": False})
+    # races: (a) a duplicate / overtaking delivery while the first one is inside bifurcation (getter gated);
+    #        (b) a Head() request in flight while gossip moves the target and the sync is between two partial answers,
+    #            then a lying tracked peer offers a forged header right above the store head with a soft failure
+    for _ in range(40 if quick else 800):
+        n_ = rnd.randint(8, 14)
+        far = rnd.randint(6, n_)
+        hist = [ev("gossipAsync", "valid", far), ev("gossipAsync", "valid", far)]
+        if rnd.random() < 0.5:
+            hist.append(ev("gossipAsync", "valid", far))
+        hist += [ev("releaseByHeight", "", 12), ev("collect", "", 0)] + [ev("serve", "ok", 64) for _ in range(6)]
+        frees.append({"k": "SYNC", "n": n_, "hist": hist, "free": True, "from_tlc": False, "epochLen": 2, "gateByHeight": True, "realtime": True})
+    for _ in range(40 if quick else 800):
+        n_ = rnd.randint(8, 14)
+        tgt = rnd.randint(5, n_)
+        hist = [ev("advance", "", 4), ev("headStart", "", 0), ev("gossip", "valid", tgt), ev("serve", "ok", rnd.randint(1, 3)),
+                ev("headRelease", "forgedNext", 0)] + [ev("serve", "ok", 64) for _ in range(6)]
+        frees.append({"k": "SYNC", "n": n_, "hist": hist, "free": True, "from_tlc": False})
+    cases = cases + frees
+    for i, c in enumerate(cases):
+        c["id"] = i
+    run.cov["free_scenarios"] = len(frees)
+    run.cov["edges_exported"], run.cov["edges_replayed"], run.cov["simulated_behaviours"] = total, len(cases) - len(longs) - len(frees), len(longs)
+    run.cov["exhaustive"] = total == len(cases) - len(longs) - len(frees)
+    for c in cases[:1] + cases[len(cases) // 3:len(cases) // 3 + 1] + longs[:1]:
+        run.sample({"n": c["n"], "events": [(h["ev"]["e"], h["ev"]["kind"], h["ev"]["h"]) for h in c["hist"]]})
+    run.cov["rule"] = ("one behaviour per edge of Syncer.tla's state graph (gossip of valid / forged / wrong-chain / future / stale heads at every height, "
+                       "served range requests as full answers, every prefix length, errors and contract-breaking answers) + simulated long behaviours with N=150 "
+                       "so that MaxRangeRequestSize splits requests; real Syncer + real Store + gated scripted getter in virtual time; "
+                       "non-trivial = more than one event; distinct = distinct event sequence")
+    run.assumptions += ["the getter serves the canonical chain (contract-abiding) except in the two guard-clause answers (empty, non-adjacent)",
+                        "interleavings inside one gossip delivery / one served request are not split (event granularity)"]
+    judge(run, cases, "TestSyncer", "SyncerTrace", prefixes, shards=8, pkg="synch")
+
+
+@register("C07")
+def c07(run):
+    syncer_family(run, ["C07_"])
+
+
+@register("C03")
+def c03(run):
+    syncer_family(run, ["C03_"])
